@@ -28,16 +28,18 @@ func plan(tier string, seed uint64) []run {
 			{"persisted clocks (GoGitRepo), one replica with a pre-fetched remote", Params{Seed: seed, Edit2: true, DelSingle: true, MaxIdent: 2, MaxNew: 3}, 7, 9 * time.Minute},
 			{"in-memory clocks (mockRepo)", Params{Mem: true, Seed: seed, Edit2: true, MaxIdent: 2, MaxNew: 3}, 8, 4 * time.Minute},
 			{"persisted clocks, remote head is a merge commit written by the other replica", Params{Seed: seed, MergeHead: true, Edit2: true, DelSingle: true, MaxIdent: 1, MaxNew: 2}, 6, 5 * time.Minute},
+			{"persisted clocks, clock files deleted while the handle stays open (one file, both, the directory)", Params{Seed: seed, LiveDel: 2, MaxIdent: 2, MaxNew: 2}, 6, 5 * time.Minute},
 		}
 	}
 	return []run{
 		{"persisted clocks (GoGitRepo), one replica with a pre-fetched remote", Params{Seed: seed, Edit2: true, DelSingle: true, MaxIdent: 1, MaxNew: 2}, 6, 150 * time.Second},
 		{"in-memory clocks (mockRepo)", Params{Mem: true, Seed: seed, Edit2: true, MaxIdent: 1, MaxNew: 2}, 7, 60 * time.Second},
 		{"persisted clocks, remote head is a merge commit written by the other replica", Params{Seed: seed, MergeHead: true, MaxIdent: 1, MaxNew: 1}, 4, 60 * time.Second},
+		{"persisted clocks, clock files deleted while the handle stays open (both files, the directory)", Params{Seed: seed, LiveDel: 1, MaxIdent: 2, MaxNew: 1}, 5, 60 * time.Second},
 	}
 }
 
-const rule = "(a) clock monitor on every write of the replica-synchronisation exploration; (c) fault + retry enumeration over clock-file operations (see fault_retry_enumeration); (b) breadth-first over all sequences of newbug/edit/edit2/read/readall/merge/reopen/delclocks/brokenrebuild/identmut on one replica with a pre-fetched remote, states deduplicated by (all refs, persisted clock files, live clock values, seam counters, largest edit time seen so far); a state is non-trivial when distinct by that key"
+const rule = "(a) clock monitor on every write of the replica-synchronisation exploration; (c) fault + retry enumeration over clock-file operations (see fault_retry_enumeration); (b) breadth-first over all sequences of newbug/edit/edit2/read/readall/merge/reopen/delclocks/delclocks-live (files deleted under the open handle)/brokenrebuild/identmut/identnew on one replica with a pre-fetched remote, states deduplicated by (all refs, persisted clock files, live clock values, seam counters, largest edit time seen so far); a state is non-trivial when distinct by that key"
 
 // Main is the whole C05 check: the monitor on the sync world plus the dedicated clock machine.
 func Main(args []string) {
